@@ -224,7 +224,7 @@ def check(ctx, case):
 
 
 def part_trees(ctx):
-    n = 250 if ctx.tier == "quick" else 2500
+    n = 250 if ctx.tier == "quick" else 6000
     hyp_run(ctx, CASE, lambda c: check(ctx, c), n, name="trees")
 
 
